@@ -592,12 +592,25 @@ class XPathToken(Token[ta.XPathTokenType]):
                 case Integer():
                     if isinstance(op2, (str, AbstractQName, AnyURI, bool)):
                         raise TypeError(msg.format(type(op1), type(op2)))
+                    elif isinstance(op2, float):
+                        # numeric type promotion: the integer is converted to xs:double
+                        try:
+                            yield float(op1), op2
+                        except OverflowError:
+                            yield math.inf if op1 > 0 else -math.inf, op2
+                        continue
                 case float():
                     if isinstance(op2, decimal.Decimal):
                         yield op1, float(op2)
                         continue
                     elif isinstance(op2, (str, AbstractQName, AnyURI, bool)):
                         raise TypeError(msg.format(type(op1), type(op2)))
+                    elif isinstance(op2, int):
+                        try:
+                            yield op1, float(op2)
+                        except OverflowError:
+                            yield op1, math.inf if op2 > 0 else -math.inf
+                        continue
                 case decimal.Decimal():
                     if isinstance(op2, float):
                         yield float(op1), op2
